@@ -16,12 +16,11 @@ SEPARATORS = [".", "->", "__", "/"]
 
 
 def label_text(lab, sep):
+    """label 0 is the empty string; the others contain every separator except the one in use"""
     if lab == 0:
         return ""
-    pieces = {".": "x.y", "->": "p->q", "__": "m__n", "/": "u/v"}
-    others = [v for k, v in sorted(pieces.items()) if k != sep and sep not in v]
-    base = "L%d" % lab
-    return base + others[lab % len(others)] if lab % 2 == 0 else base
+    others = "".join("<%s>" % s for s in SEPARATORS if s != sep and sep not in s and s not in sep)
+    return "L%d%s" % (lab, others if lab % 2 == 0 else "")
 
 
 class Payload:
@@ -135,7 +134,7 @@ def describe(e):
 def main(chk):
     core.setup_repo_path()
     quick = chk.tier == "quick"
-    labels, depth, maxleaves = ([0, 1, 2], 1, 3) if quick else ([0, 1, 2], 2, 4)
+    labels, depth, maxleaves = ([0, 1, 2], 2, 2) if quick else ([0, 1, 2], 2, 4)
     nseps = 2 if quick else 4
     cfg = {"constants": {"Labels": "{%s}" % ", ".join(map(str, labels)), "Depth": str(depth),
                          "MaxLeaves": str(maxleaves)},
